@@ -28,7 +28,7 @@ OBS_NAMES = ["NoInternal", "DocVerdict", "OnceEach", "Causal", "VersionsFirst", 
 
 # which observer predicates decide which property
 DECIDES = {
-    "C01": ["KeyAgree"],
+    "C01": ["KeyAgree", "KeyEstablished"],
     "C02": ["InOrderOnce", "VersionsHonest", "Backed"],
     "C03": ["InOrderOnce"],
     "C08": ["ClosedOnce", "NothingAfter", "Verdict", "Freed", "CloseCompletes"],
@@ -268,6 +268,58 @@ C01_PURPOSES = [("wormhole:test", 32), ("other", 32), ("wormhole:test", 16), ("\
                 ("\ufb01le", 32), ("file", 32)]
 
 
+def version_before_pake(run, victims=("A",)):
+    """Run everything, but hold the peer's frames on their way to each of `victims` until the peer's PAKE and version
+    are both queued, then hand them over version first (the Order machine has to park it).  The mailbox is an
+    unordered set: a conformant server may do this."""
+    w = run.world
+    side_of = {c.name: c.side for c in w.clients.values()}
+    peer_side = {v: [s_ for n, s_ in side_of.items() if n != v][0] for v in victims}
+
+    def held(conn, fr):
+        v = conn.client.name
+        return v in victims and fr["type"] == "message" and fr["side"] == peer_side[v]
+    for _ in range(400):
+        moved = False
+        for a in w.enabled(faults=False):
+            if a["a"] == "Deliver":
+                conn = w.conn(a["k"])
+                if held(conn, conn.s2c[0]):
+                    other = [i for i, f in enumerate(conn.s2c) if not held(conn, f)]
+                    if other:
+                        for j in range(other[0], 0, -1):
+                            if conn.s2c[j]["type"] == "message":
+                                run.apply({"a": "SwapS2C", "k": conn.id, "i": j - 1})
+                            else:
+                                run.apply({"a": "HoistS2C", "k": conn.id, "i": j})
+                                break
+                        run.apply(a)
+                        moved = True
+                        break
+                    continue
+            if a["a"] in ("Serve", "Deliver", "CloseDone"):
+                run.apply(a)
+                moved = True
+                break
+        if not moved:
+            break
+    ok = True
+    for v in victims:
+        conns = [c for c in w.conns if c.client.name == v and c.state == "open" and not c.closing]
+        if not conns:
+            ok = False
+            continue
+        conn = conns[-1]
+        idx = [i for i, fr in enumerate(conn.s2c) if held(conn, fr)]
+        phases = [conn.s2c[i]["phase"] for i in idx]
+        if "pake" not in phases or len(idx) < 2:
+            ok = False
+            continue
+        k = phases.index("pake")
+        ok = _permute_s2c(run, conn, peer_side[v], [j for j in range(len(idx)) if j != k] + [k], skip_pake=False) and ok
+    return ok
+
+
 def c01_case(tid, codes, appids, order, rng):
     """two wormholes with the given codes / appids; `order` decides who moves first and whether B's code is
     entered only after A's PAKE message has arrived (the Key.S00 -> S01 stash path)"""
@@ -293,6 +345,17 @@ def c01_case(tid, codes, appids, order, rng):
         run.apply({"a": "AppSetCode", "c": second, "code": cmap[second]})
     for c in ("A", "B"):
         run.apply({"a": "AppSend", "c": c, "data": ("m:%s:0" % c).encode().hex()})
+    if order == "version-first":
+        version_before_pake(run, ("A",))
+    elif order == "abandoned-parked":
+        # the session is abandoned with the peer's version parked in A's Order machine (its PAKE never delivered): whatever
+        # later wormholes in this process do must not be affected by what this one left behind
+        version_before_pake(run, ("A",))
+        conn = [c for c in w.conns if c.client.name == "A" and c.state == "open"][-1]
+        bside = w.clients["B"].side
+        while conn.s2c and not (conn.s2c[0]["type"] == "message" and conn.s2c[0]["side"] == bside and conn.s2c[0]["phase"] == "pake"):
+            run.apply({"a": "Deliver", "k": conn.id})
+        return run, False, False
     drained = run.drain()
     for c in ("A", "B"):
         for purpose, n in C01_PURPOSES:
@@ -548,6 +611,7 @@ def c02_case(tid, victim, frame_index, op, rng):
                     if t["op"] == "side":
                         # ("own+" / "peer+": a label that differs from a genuine one only by a non-ASCII character)
                         t["v"] = {"own": conn.client.side, "peer": other.side, "x": "f0f0f0f0f0", "own+": conn.client.side + "\u00e9",
+                                  "OWN": conn.client.side.upper(), "PEER": other.side.upper(), "Own": conn.client.side.capitalize(),
                                   "peer+": other.side + "\u00e9", "+peer": "\u0660" + other.side}[t["v"]]
                         if t["v"] == fr["side"]:
                             t["v"] = "f0f0f0f0f0"
@@ -1020,7 +1084,7 @@ def run_pipeline(prop, tier, v, quick):
             fam = []
             for codes in C01_CODES:
                 for appids in ({"A": "appid", "B": "appid"}, {"A": "appid", "B": "appid2"}, {"A": "app\ufb01d", "B": "appfid"}):
-                    for order in ("a-first", "b-first", "late", "stash"):
+                    for order in ("abandoned-parked", "a-first", "b-first", "late", "stash", "version-first"):
                         if quick and order in ("b-first",) and codes != C01_CODES[0]:
                             continue
                         fam.append((codes, appids, order))
@@ -1040,6 +1104,7 @@ def run_pipeline(prop, tier, v, quick):
                    {"op": "flip", "where": "first"}, {"op": "flip", "where": "last"}, {"op": "flip", "where": "mid"}, {"op": "flip", "where": "rand"},
                    {"op": "truncate"}, {"op": "extend"}, {"op": "replay", "v": "1"}, {"op": "replay", "v": "version"},
                    {"op": "side", "v": "own+"}, {"op": "side", "v": "peer+"}, {"op": "side", "v": "+peer"},
+                   {"op": "side", "v": "OWN"}, {"op": "side", "v": "PEER"}, {"op": "side", "v": "Own"},
                    {"op": "phase", "v": "0\u0661"}, {"op": "phase", "v": "\u0660" + "1"}, {"op": "phase", "v": "versi\u00f6n"},
                    {"op": "replay", "v": "0\u0661"}, {"op": "replay", "v": "1\u0660"}, {"op": "replay", "v": "\u0660" + "2"}]
             n = 0
